@@ -54,6 +54,56 @@ pub fn djb2(name: &[u8]) -> u32 {
     h
 }
 
+/// Meet-in-the-middle table for djb2: p(s2) for every 4-letter lower-case string s2, where
+/// p(s) = sum s[i]*33^(len-1-i) is the polynomial part (djb2(x+s) = djb2(x)*33^len + p(s)).
+fn djb2_mitm() -> &'static std::collections::HashMap<u32, [u8; 4]> {
+    static T: std::sync::OnceLock<std::collections::HashMap<u32, [u8; 4]>> = std::sync::OnceLock::new();
+    T.get_or_init(|| {
+        let mut m = std::collections::HashMap::with_capacity(500_000);
+        for a in b'a'..=b'z' {
+            for b in b'a'..=b'z' {
+                for c in b'a'..=b'z' {
+                    for d in b'a'..=b'z' {
+                        let p = (a as u32).wrapping_mul(35937).wrapping_add((b as u32).wrapping_mul(1089)).wrapping_add((c as u32) * 33).wrapping_add(d as u32);
+                        m.entry(p).or_insert([a, b, c, d]);
+                    }
+                }
+            }
+        }
+        m
+    })
+}
+
+/// An 8-letter suffix s with djb2(prefix + s) == target (None if the bounded search finds none).
+pub fn djb2_suffix_to(prefix: &[u8], target: u32, salt: u32) -> Option<Vec<u8>> {
+    let h0 = djb2(prefix);
+    let p33_4: u32 = 1_185_921; // 33^4
+    let p33_8: u32 = p33_4.wrapping_mul(p33_4);
+    let need = target.wrapping_sub(h0.wrapping_mul(p33_8)); // p(s1 s2) = p(s1)*33^4 + p(s2)
+    let table = djb2_mitm();
+    // walk s1 candidates starting at a salt-dependent point so that different calls give different suffixes
+    let mut k = salt % 456_976;
+    for _ in 0..456_976u32 {
+        let s1 = [b'a' + (k / 17_576 % 26) as u8, b'a' + (k / 676 % 26) as u8, b'a' + (k / 26 % 26) as u8, b'a' + (k % 26) as u8];
+        let p1 = (s1[0] as u32).wrapping_mul(35937).wrapping_add((s1[1] as u32).wrapping_mul(1089)).wrapping_add((s1[2] as u32) * 33).wrapping_add(s1[3] as u32);
+        let want = need.wrapping_sub(p1.wrapping_mul(p33_4));
+        if let Some(s2) = table.get(&want) {
+            let mut out = prefix.to_vec();
+            out.extend_from_slice(&s1);
+            out.extend_from_slice(s2);
+            debug_assert_eq!(djb2(&out), target);
+            return Some(out);
+        }
+        k = (k + 1) % 456_976;
+    }
+    None
+}
+
+/// A strictly longer name that has `name` as a proper prefix and the same djb2 hash.
+pub fn djb2_extend_collide(name: &[u8], salt: u32) -> Option<Vec<u8>> {
+    djb2_suffix_to(name, djb2(name), salt)
+}
+
 // ---- symbol table + string table -----------------------------------------------------------------
 
 #[derive(Clone, Debug)]
@@ -550,8 +600,9 @@ pub fn gen_version_model(c: &mut Choice, max_needs: usize, max_aux: usize, max_d
         _ => c.below(max_needs as u64 + 1) as usize,
     };
     for _ in 0..nn {
-        let na = match c.below(4) {
-            0 => c.below(2) as usize,
+        let na = match c.below(6) {
+            0 | 1 => 0,
+            2 => 1,
             _ => c.below(max_aux as u64 + 1) as usize,
         };
         let mut auxes = vec![];
